@@ -87,6 +87,10 @@ def run(ctx, shared=True):
         _reuse(ctx, _c11.run, ("C11.snapshot",), "C06ckpt", "snapshot rule shared with C11: a checkpoint that shares the live temperature list makes a resumed run skip or repeat a step")
     if shared:
         _reuse(ctx, lambda c: _c08.inf_rule(c), ("C08.inf",), "C06w", "incremental-weight rule shared with C08: a NaN weight makes log_weights raise inside determine_beta / resample")
+    if shared:
+        from . import c20 as _c20
+        _reuse(ctx, _c20.run, ("C20.route",), "C06route", "routing rule shared with C20: the schedule options (adaptive, n_steps, min_step, max_n_steps) reach sample() only if the front end hands on "
+               "exactly the caller's keyword arguments minus the constructor's -- a selection by value (truthiness) drops adaptive=False and the run follows another schedule")
     smc = repo.cls(SMC)
     db = smc.resolve("determine_beta")
     sample = smc.methods.get("sample")
